@@ -338,6 +338,19 @@ fn script_for(def: usize, run: u32) -> Vec<SAct>
     SH.with(|s| s.borrow().defs.get(def).and_then(|d| d.runs.get(run as usize)).cloned().unwrap_or_default())
 }
 
+thread_local! {
+    /// The scripted action being interpreted: (owner, run, index in the script).
+    static CUR_ACT: RefCell<(String, u32, usize)> = RefCell::new((String::new(), 0, 0));
+}
+/// A reacting accessor call that, by C14, must not trigger (`get_mut` that failed, `set_if_neq` that stored nothing): a `note`
+/// line for the C14 automaton, which then demands that the action's marker bracket stays empty. `note` lines are not part of
+/// the compared trace (the model prints none).
+fn note_no_trigger()
+{
+    let (o, r, j) = CUR_ACT.with(|c| c.borrow().clone());
+    log(format!("note notrigger {o} {r} {j}"));
+}
+
 fn marker(c: &mut Commands, plus: bool, owner: &str, run: u32, act: usize)
 {
     let line = format!("{} {} {} {}", if plus { "m+" } else { "m-" }, owner, run, act);
@@ -443,6 +456,24 @@ fn interpret(c: &mut Commands, ctx: &mut Ctx, act: &SAct)
             mark_ready(c, *SystemCommand::from(tok.clone()));
             SH.with(|s| s.borrow_mut().tokens.push(tok));
         }
+        SAct::OnceFn(d, ts) =>
+        {
+            // `once` with a zero-sized function item (what user code usually passes): the same generic `fn` as the app
+            // reactors, so several one-off reactors — and persistent reactors — are instances of one system type
+            let Some(b) = resolve_trigs(ts) else { return };
+            if *d > 3 || SH.with(|s| s.borrow().defs.get(*d).is_none()) { return }
+            let tok = match *d
+            {
+                0 => c.react().once(b, app_reactor::<0>),
+                1 => c.react().once(b, app_reactor::<1>),
+                2 => c.react().once(b, app_reactor::<2>),
+                _ => c.react().once(b, app_reactor::<3>),
+            };
+            let k = new_system_name(*SystemCommand::from(tok.clone()));
+            SH.with(|s| s.borrow_mut().onces.push(k));
+            mark_ready(c, *SystemCommand::from(tok.clone()));
+            SH.with(|s| s.borrow_mut().tokens.push(tok));
+        }
         SAct::Revoke(k) =>
         {
             let Some(tok) = SH.with(|s| s.borrow().tokens.get(*k).cloned()) else { return };
@@ -525,7 +556,8 @@ fn interpret(c: &mut Commands, ctx: &mut Ctx, act: &SAct)
             let Ctx::Full(acc, ..) = ctx else { log("unsupported-in-exclusive".into()); return };
             let single = *v % 2 == 0 && if *ty == 0 { acc.5.iter().count() == 1 && acc.5.contains(e) } else { acc.6.iter().count() == 1 && acc.6.contains(e) };
             if single { if *ty == 0 { acc.0.single_mut(c).1.0 = *v; } else { acc.1.single_mut(c).1.0 = *v; } }
-            else if *ty == 0 { if let Ok(x) = acc.0.get_mut(c, e) { x.0 = *v; } } else { if let Ok(x) = acc.1.get_mut(c, e) { x.0 = *v; } }
+            else if *ty == 0 { if let Ok(x) = acc.0.get_mut(c, e) { x.0 = *v; } else { note_no_trigger(); } }
+            else { if let Ok(x) = acc.1.get_mut(c, e) { x.0 = *v; } else { note_no_trigger(); } }
         }
         SAct::SetNeq(r, ty, v) =>
         {
@@ -534,6 +566,7 @@ fn interpret(c: &mut Commands, ctx: &mut Ctx, act: &SAct)
             let single = *v % 2 == 0 && if *ty == 0 { acc.5.iter().count() == 1 && acc.5.contains(e) } else { acc.6.iter().count() == 1 && acc.6.contains(e) };
             let old = if single { if *ty == 0 { acc.0.set_single_if_not_eq(c, Comp::<0>(*v)).1.map(|x| x.0) } else { acc.1.set_single_if_not_eq(c, Comp::<1>(*v)).1.map(|x| x.0) } }
                 else if *ty == 0 { acc.0.set_if_neq(c, e, Comp::<0>(*v)).map(|x| x.0) } else { acc.1.set_if_neq(c, e, Comp::<1>(*v)).map(|x| x.0) };
+            if old.is_none() { note_no_trigger(); }
             log(format!("ret {}", opt(old)));
         }
         SAct::ReadComp(r, ty) =>
@@ -632,6 +665,7 @@ fn run_script(c: &mut Commands, ctx: &mut Ctx, script: &[SAct], owner: &str, run
     for (j, act) in script.iter().enumerate()
     {
         marker(c, true, owner, run, j);
+        CUR_ACT.with(|a| *a.borrow_mut() = (owner.to_string(), run, j));
         interpret(c, ctx, act);
         marker(c, false, owner, run, j);
     }
